@@ -85,16 +85,29 @@ def make_scratch(tag, harness_files, keep=False):
     os.makedirs(hd)
     shutil.copy(os.path.join(HARNESS_DIR, "env.rs"), os.path.join(hd, "env.rs"))
     mods = ["pub mod env;"]
+    arms = []
     for name, text in harness_files.items():
         with open(os.path.join(hd, name), "w") as fh:
             fh.write(text)
-        mods.append("pub mod %s;" % name[:-3])
+        mod = name[:-3]
+        mods.append("pub mod %s;" % mod)
+        for fn in entry_names(text):
+            arms.append('\t\t"%s::%s" => Some(%s::%s),' % (mod, fn, mod, fn))
+    finder = ("#[cfg(verif_replay)]\npub fn find_entry(name: &str) -> Option<fn()> {\n\tmatch name {\n"
+              + "\n".join(arms) + "\n\t\t_ => None,\n\t}\n}\n")
     with open(os.path.join(hd, "mod.rs"), "w") as fh:
-        fh.write("#![allow(dead_code, unused_variables, unused_imports, unused_mut, unused_must_use, clippy::all, clippy::pedantic, clippy::nursery)]\n" + "\n".join(mods) + "\n")
+        fh.write("#![allow(dead_code, unused_variables, unused_imports, unused_mut, unused_must_use, unreachable_code, clippy::all, clippy::pedantic, clippy::nursery)]\n" + "\n".join(mods) + "\n" + finder)
+    os.makedirs(os.path.join(d, "src", "bin"), exist_ok=True)
+    shutil.copy(os.path.join(HARNESS_DIR, "replay_main.rs"), os.path.join(d, "src", "bin", "verif_replay.rs"))
     os.makedirs(os.path.join(d, ".cargo"), exist_ok=True)
     with open(os.path.join(d, ".cargo", "config.toml"), "w") as fh:
         fh.write("[net]\noffline = true\n")
     return d
+
+
+def entry_names(text):
+    """zero-argument `pub fn name()` items of a harness file are its entry points"""
+    return re.findall(r"^pub fn ([a-z0-9_]+)\(\) \{", text, flags=re.M)
 
 
 def remove_scratch(d):
